@@ -142,7 +142,7 @@ Definition check_901 (fs : list field) : verdict :=
       if status =? 2 then VBad 20 [] else if status =? 0 then VDrift 9 else VSkip
     | Some j =>
       let spec := pdenote disallow sc root j in
-      let specb := j2p_spec disallow sc root j in
+      let specb := res_bind spec (fun m => ROk (encode_msg m)) in
       let mach := j2p_machine disallow sc root j in
       let trig := doc_triggers sc root j in
       (* self-check of the model: on the strict domain the machine as coded yields the specified bytes (theorem sax_refines_spec) *)
